@@ -159,6 +159,14 @@ func (fr *frame) formatV(a value, verb byte) value {
 	if !ok {
 		panic(engineBug{fmt.Sprintf("fmt operand %T", a)})
 	}
+	// fmt does not detect cycles through maps, slices and interfaces: a value that
+	// contains itself recurses until the goroutine stack is exhausted (fatal error)
+	fr.i.fmtDepth++
+	defer func() { fr.i.fmtDepth-- }()
+	if fr.i.fmtDepth > 200 {
+		fr.i.fmtDepth = 0
+		panic(targetFatal("stack overflow (fmt walking a value that contains itself)"))
+	}
 	if it.t == rtypeType {
 		return typeString(it.v.(rtype).t)
 	}
